@@ -53,7 +53,7 @@ FAULT_KINDS = ["branch-raises-other-lena-exception", "LenaStopFill-from-probe", 
 EXPECTED_PROBES = ["stop-in-last-slot-of-block", "two-branches-stop-in-same-block",
                    "source-branch-after-first-block", "empty-flow-all-kinds", "common-type-fill-compute",
                    "common-type-fill-request", "common-type-call", "zip", "zip-with-fields", "nested-mixed-split-as-branch", "empty-split",
-                   "fr-tuple-bufsize-none", "multi-block", "same-split-run-twice",
+                   "fr-tuple-bufsize-none", "multi-block", "same-split-run-twice", "source-of-a-container-called-twice",
                    "accumulator-inside-explicit-sequence", "same-branch-object-listed-twice",
                    "no-branch-active-before-the-flow-ends"]
 
@@ -104,6 +104,9 @@ def gen_branch(tape, name, kinds, allow_stop=True):
         b.npost = tape.draw(2, "src-post")
         # an instance of a user's subclass of Source is a Source
         b.subclass = tape.chance(1, 3, "source-subclass")
+        # the first element of the Source is a container that can be iterated again and again
+        # (a list of file names), not a callable
+        b.iterable = tape.chance(1, 3, "source-of-a-container")
     elif b.kind in ("fc", "fr"):
         b.pre = gen_pre(tape, allow_stop)
         b.npost = tape.draw(3, "npost")
@@ -209,6 +212,17 @@ def post_calls(b, log):
 # ---------------------------------------------------------------------------
 # real branches
 
+class IterSrc(object):
+    """a container as first element of a Source: every iteration starts from the beginning
+    (what ProbeSrc does per call, this one does per iter())"""
+
+    def __init__(self, log, name, m):
+        self._probe = ProbeSrc(log, name, m)
+
+    def __iter__(self):
+        return self._probe()
+
+
 class SourceSub(lena.core.Source):
     """a user's subclass of Source"""
 
@@ -217,7 +231,7 @@ def real_branch(b, log):
     if b.kind == "nested":
         return lena.core.Split([real_branch(x, log) for x in b.sub], bufsize=b.inner)
     if b.kind == "source":
-        els = [ProbeSrc(log, b.name + ".src", b.m)]
+        els = [(IterSrc if getattr(b, "iterable", False) else ProbeSrc)(log, b.name + ".src", b.m)]
         els += post_calls(b, log)
         if getattr(b, "subclass", False):
             return SourceSub(*els)
@@ -587,6 +601,8 @@ def _probes(sc, res, mlog):
         res.probe("empty-split")
     if any(b.kind == "nested" for b in sc.branches):
         res.probe("nested-mixed-split-as-branch")
+    if sc.second_run is not None and any(getattr(b, "iterable", False) for b in sc.branches):
+        res.probe("source-of-a-container-called-twice")
     if any(b.kind == "seq" and any(st[0] == "fc" for st in b.stages) for b in sc.branches):
         res.probe("accumulator-inside-explicit-sequence")
     B = sc.bufsize
